@@ -3,6 +3,7 @@ package c11
 
 import (
 	"bytes"
+	"crypto/sha256"
 	"encoding/binary"
 	"errors"
 	"fmt"
@@ -178,6 +179,24 @@ func checkCase(c Case) error {
 			if db, err := signature.ReadSignatureDatabase(bytes.NewReader(value)); err == nil && bytes.Equal(db.Bytes(), value) {
 				m = &db
 			}
+		}
+		if c.Kind == "signed" && len(value)%2 == 0 {
+			// the value is what SignEFIVariable hands out for writing: descriptor followed by the payload
+			db := signature.NewSignatureDatabase()
+			h := sha256.Sum256(value)
+			if err := db.Append(signature.CERT_SHA256_GUID, adapt.Lib(gen.Owners[0]), h[:]); err != nil {
+				return fmt.Errorf("bad case: %v", err)
+			}
+			id := gen.FixedIdents()[len(value)%4]
+			auth, upd, serr := signature.SignEFIVariable(v, db, id.Priv(), id.Cert)
+			if serr != nil {
+				return fmt.Errorf("SignEFIVariable: %v", serr)
+			}
+			var ab bytes.Buffer
+			auth.Marshal(&ab)
+			value = append(ab.Bytes(), db.Bytes()...)
+			m = upd
+			hx.Class("write/value_is_a_signed_update_from_SignEFIVariable")
 		}
 		var err error
 		if c.API == "object" {
